@@ -35,7 +35,7 @@ def main():
             if tok.startswith(('-Wl,', '-D', '-l', '-pthread')):
                 extra += ' ' + tok
     scratch = tempfile.mkdtemp(prefix='verif_confirm_')
-    meta = {'property': prop, 'source': 'sub-agent seed-%s, change %s' % (prop, n)}
+    meta = {'property': prop, 'source': 'sub-agent (%s) for %s, change %s' % (os.environ.get('SEED_TAG', 'round 1'), prop, n)}
     pre = os.environ.get('SEED_PRECONFIRMED')
     try:
         if pre:
@@ -98,7 +98,8 @@ def main():
         print('   ', c, 'CAUGHT' if results[c]['caught'] else 'missed', keys[:2])
     meta['quick_checks'] = results
     meta['needs'] = readme[:1500]
-    dst = os.path.join(VERIF, 'seeded', '%s-%s' % (prop, n))
+    tag = os.environ.get('SEED_TAG')
+    dst = os.path.join(VERIF, 'seeded', '%s-%s%s' % (prop, (tag + '-') if tag else '', n))
     os.makedirs(dst, exist_ok=True)
     for f in os.listdir(src):
         if os.path.isfile(os.path.join(src, f)) and os.path.getsize(os.path.join(src, f)) < 200000 and not f.endswith(('.o', '.a')) and f != 'demo':
